@@ -155,7 +155,10 @@ def nontrivial(a):
 
 # ---------------------------------------------------------------------------------------------
 
-def case_randarg(ctx, lines, expect, a, which, axis, seed):
+INT_POOLS = {"uint8": [0, 0, 1, 3, 7, 255], "uint16": [0, 0, 1, 4, 9, 65535], "int8": [-128, -128, -1, 0, 5, 127], "int64": [-3, 0, 0, 2, 2, 9]}
+
+
+def case_randarg(ctx, lines, expect, a, which, axis, seed, int_dtype=None):
     """Build one rand_argmax/min case: run the implementation, queue the model line."""
     from skactiveml.utils import rand_argmax, rand_argmin
 
@@ -167,9 +170,13 @@ def case_randarg(ctx, lines, expect, a, which, axis, seed):
         kw = {"axis": None}          # the keyword spelled out: same call as leaving it out
         ctx.count("axis_None_passed_explicitly")
     layout = (LAYOUTS_1D if a.ndim == 1 else LAYOUTS_2D)[seed % 5]
+    arg = relayout(a, layout)
+    if int_dtype is not None:
+        arg = arg.astype(int_dtype)        # integer arrays are legal input: same order, same positions
+        ctx.count(f"rand_arg_integer_dtype_{np.dtype(int_dtype).name}")
     try:
         with np.errstate(all="ignore"):
-            res = fn(relayout(a, layout), random_state=rs, **kw)
+            res = fn(arg, random_state=rs, **kw)
     except Exception as e:
         ctx.count("randarg_raised")
         return
@@ -180,7 +187,7 @@ def case_randarg(ctx, lines, expect, a, which, axis, seed):
         # not a position of the array at all (a mutated implementation may return anything)
         ctx.violate(f"C18/rand_arg{which}/result-is-not-a-position",
                     f"rand_arg{which}({'axis=' + str(kw['axis']) if kw else 'no axis'}) on an array of shape {a.shape} returned {np.asarray(res).tolist()!r}, "
-                    f"expected an index array of length {want_len}", dict(fn=f"rand_arg{which}", a=a, axis=axis, seed=seed))
+                    f"expected an index array of length {want_len}", dict(fn=f"rand_arg{which}", a=a, axis=axis, seed=seed, dtype=int_dtype))
         return
     if a.ndim == 1:
         line = f"{name} {fl(a)} {fl(noise)}"
@@ -193,7 +200,7 @@ def case_randarg(ctx, lines, expect, a, which, axis, seed):
         line = f"{name}_rows {aa.shape[0]} {aa.shape[1]} " + " ".join(f2bits(x) for x in aa.ravel()) + " " + " ".join(f2bits(x) for x in nn.ravel())
         impl = " ".join(str(int(x)) for x in res)
     lines.append(line)
-    case = dict(fn=f"rand_arg{which}", a=a, axis=axis, seed=seed)
+    case = dict(fn=f"rand_arg{which}", a=a, axis=axis, seed=seed, dtype=int_dtype)
     expect.append((impl, case))
     ctx.case((which, a.tolist().__repr__(), axis, seed), nontrivial(a), sample=dict(fn=f"rand_arg{which}", a=a, axis=axis, seed=seed, result=impl))
     ctx.count(f"rand_arg{which}_ndim{a.ndim}_axis{axis}")
@@ -341,7 +348,18 @@ def correspond(ctx):
         seed = rng.randrange(2**31 - 1)
         r0 = rng.random()
         pool = VALS if r0 < 0.55 else ([float("nan"), 1.0, 1.0, 1.0, 0.0] if r0 < 0.75 else NEAR)
-        if kind < 0.35:
+        if kind < 0.06:
+            # integer-valued arrays handed over in an integer dtype (unsigned types and the most negative value of a signed type
+            # included: negation wraps around there; seed R9C18)
+            dt = rng.choice(sorted(INT_POOLS))
+            if rng.random() < 0.6:
+                a = [float(rng.choice(INT_POOLS[dt])) for _ in range(rng.randint(2, 7))]
+                case_randarg(ctx, lines, expect, a, rng.choice(["max", "min"]), None, seed, int_dtype=dt)
+            else:
+                r, c = rng.randint(2, 3), rng.randint(2, 4)
+                a = [[float(rng.choice(INT_POOLS[dt])) for _ in range(c)] for _ in range(r)]
+                case_randarg(ctx, lines, expect, a, rng.choice(["max", "min"]), rng.choice([None, 0, 1]), seed, int_dtype=dt)
+        elif kind < 0.35:
             n = rng.randint(1, 9)
             a = [rng.choice(pool) for _ in range(n)]
             case_randarg(ctx, lines, expect, a, rng.choice(["max", "min"]), None, seed)
@@ -453,7 +471,7 @@ def replay(payload):
     lines, expect = [], []
     if r.get("fn", "").startswith("rand_arg") and "seed" in r:
         a = np.array([[float(x) for x in row] if isinstance(row, list) else float(row) for row in r["a"]], dtype=float)
-        case_randarg(ctx, lines, expect, a, r["fn"][-3:], r.get("axis"), r["seed"])
+        case_randarg(ctx, lines, expect, a, r["fn"][-3:], r.get("axis"), r["seed"], int_dtype=r.get("dtype"))
     elif r.get("fn") == "simple_batch":
         u = np.array(r["u"], dtype=float)
         case_simple_batch(ctx, lines, expect, u, r["batch_size"], r["method"], r["seed"])
